@@ -45,14 +45,20 @@ type Scenario struct {
 	Prepare  func() // optional, once before exploring (e.g. computing the simple-mode reference)
 	Cleanup  func()
 	MaxExecs int64
+	// DivergenceIsViolation: signature under which a replay divergence is reported instead of aborting (C13 only)
+	DivergenceIsViolation string
 }
 
 var scenarioGens = map[string]func(tier string) []*Scenario{}
+
+// scenarioByName rebuilds scenarios that are generated on the fly (replay support), keyed by name prefix.
+var scenarioByName = map[string]func(name string) *Scenario{}
 
 // freeParts run sequential code of the rewritten build outside the scheduler (key: "<prop>/<part>").
 var freeParts = map[string]func(c *rep.Ctx){}
 
 type explorer struct {
+	noShard  bool // explore every level-1 subtree in this process (the caller shards over scenarios instead)
 	c        *rep.Ctx
 	states   map[uint64]struct{}
 	outcomes map[string]int64
@@ -119,10 +125,17 @@ func (e *explorer) explore(sc *Scenario, policy int) {
 		ex, out := runOnce(sc, it.prefix, policy)
 		execs++
 		if out.Diverged != "" {
+			if sc.DivergenceIsViolation != "" {
+				// the harness and the runtime are deterministic: the same choice list can only behave differently
+				// if the code under test keeps state from one execution (= earlier, unrelated calls) to the next
+				c.Eval()
+				c.Violation(sc.DivergenceIsViolation, fmt.Sprintf("scenario=%s: replaying the choice list %v diverged (%s): library state survives between independent calls", sc.Name, it.prefix, out.Diverged), len(it.prefix), mcReplay{"mc", sc.Prop, sc.Name, policy, it.prefix, sc.Workers})
+				continue
+			}
 			fmt.Fprintf(os.Stderr, "REPLAY-DIVERGENCE scenario=%s prefix=%v: %s\n", sc.Name, it.prefix, out.Diverged)
 			os.Exit(3)
 		}
-		counted := len(it.prefix) > 0 || c.Shard == 0
+		counted := len(it.prefix) > 0 || c.Shard == 0 || e.noShard
 		if counted {
 			c.Eval()
 			c.Trace()
@@ -188,7 +201,7 @@ func (e *explorer) explore(sc *Scenario, policy int) {
 			for alt := p.N - 1; alt >= 1; alt-- {
 				if len(it.prefix) == 0 {
 					// level-1 subtrees are dealt round-robin to the shards
-					mine := level1%c.NShards == c.Shard
+					mine := level1%c.NShards == c.Shard || e.noShard
 					level1++
 					if !mine {
 						continue
@@ -328,14 +341,20 @@ func doReplay(path string) int {
 	r := env.Replay
 	gen, ok := scenarioGens[r.Prop]
 	if !ok {
-		fmt.Println("unknown property", r.Prop)
-		return 3
+		gen = func(string) []*Scenario { return nil }
 	}
 	var sc *Scenario
 	for _, t := range []string{"quick", "thorough"} {
 		for _, s := range gen(t) {
 			if s.Name == r.Scenario {
 				sc = s
+			}
+		}
+	}
+	if sc == nil {
+		for prefix, mk := range scenarioByName {
+			if strings.HasPrefix(r.Scenario, prefix) {
+				sc = mk(r.Scenario)
 			}
 		}
 	}
